@@ -6,9 +6,61 @@ import json
 import os
 import random
 
+import bindgen
 import mjgen
 import oracle
 from vlib import go_build, phase, seed, workdir
+
+
+BIND_DEVS = {"calleeLate": "F-CALL-UNRESOLVED-ORDER"}     # deviation switch of Bind.tla -> known finding
+
+
+def bind_family(chk, wd, binp, rnd, thorough):
+    """Bind.tla as oracle: bindings, closures, scopes, TDZ, per-iteration environments x 14 compiler-decision rewrites."""
+    n = 12000 if thorough else 1200
+    progs = [bindgen.random_program(i, rnd, 2 + i % 3) for i in range(n)]
+    with phase(chk, "bind-oracle"):
+        want = oracle.bind_eval(progs, wd, "b")
+    live = [p for p in progs if want[p["id"]]["ty"] != "fuel"]
+    bad = []
+    runs = 0
+    for v in bindgen.VARIANTS:
+        sel = [p for p in live if bindgen.applicable(p, v)]
+        with phase(chk, "bind-goja-" + v):
+            got = oracle.bind_run(binp, sel, wd, "b-" + v, v)
+        runs += len(sel)
+        bad += [(p, v, got[p["id"]]) for p in sel if not oracle.bind_agree(want[p["id"]], got[p["id"]])]
+    explained = {}
+    if bad:
+        uniq = list({p["id"]: p for p, _, _ in bad}.values())
+        for dev, fid in BIND_DEVS.items():
+            with phase(chk, "bind-oracle-" + dev):
+                w2 = oracle.bind_eval(uniq, wd, "b-" + dev, devs=[dev])
+            for p, v, g in bad:
+                if (p["id"], v) in explained:
+                    continue
+                if w2[p["id"]]["ty"] == "fuel":
+                    explained[(p["id"], v)] = "outside"      # with the recorded deviation the run leaves the modelled subset: undecidable here
+                elif oracle.bind_agree(w2[p["id"]], g):
+                    explained[(p["id"], v)] = fid
+    for p, v, g in bad:
+        fid = explained.get((p["id"], v))
+        if fid == "outside":
+            chk.add("bind_runs_undecided_under_known_deviation", 1)
+            continue
+        f = [k for k in chk.known if k["id"] == fid] if fid else []
+        if f:
+            chk.known_hit(fid, f[0]["what"])
+            continue
+        w = want[p["id"]]
+        chk.violation("Bind variant %s of program %d: specified log=%s %s/%s; goja log=%s %s/%s %s" % (
+            v, p["id"], w["log"], w["ty"], w["v"], g["log"], g.get("ty"), g.get("v"), (g.get("err") or g.get("panic") or "")[:200]),
+            {"module": "Bind", "variant": v, "program": p, "source": bindgen.print_js(p, v)[1], "want": w, "got": g})
+    chk.setcov("bind_programs", len(live))
+    chk.setcov("bind_variant_runs", runs)
+    chk.setcov("bind_programs_outside_model", len(progs) - len(live))
+    chk.sample({"bind_variant": "closure", "source": bindgen.print_js(live[0], "closure")[1].split("function __F")[1][:500], "specified": want[live[0]["id"]]["log"]})
+    return len(live), runs
 
 
 def run(chk, tier):
@@ -17,6 +69,7 @@ def run(chk, tier):
     binp = os.path.join(wd, "mjsrun")
     go_build("mjsrun", binp, overlay=False)
     rnd = random.Random(seed())
+    bind_family(chk, wd, binp, random.Random(seed() + 1), thorough)
     progs = []
     with phase(chk, "generate"):
         sysf = mjgen.systematic_programs(0, gen=False, depth=2)
